@@ -73,10 +73,12 @@ func (th *ToolHome) CacheFiles() map[string]int64 {
 
 // ToolRun describes one run of a command inside the private namespace.
 type ToolRun struct {
-	Argv      []string
-	FakeMode  string // "" = no fake go in PATH at all (tool absent)
-	Listing   string
-	K         int
+	Argv     []string
+	FakeMode string // "" = no fake go in PATH at all (tool absent)
+	Listing  string
+	K        int
+	// Env: extra environment (locale, time zone, temporary directory, runtime knobs): must not matter.
+	Env       []string
 	KillAfter bool // mode block: wait for the fake tool's signal, let writes settle, SIGKILL the process group
 	// WhileBlocked, if set, runs after the tool signalled and the cache settled, before the kill
 	// (an overlapping second run).
@@ -127,6 +129,7 @@ func (th *ToolHome) Run(tr ToolRun) (*ToolResult, error) {
 	cmd := exec.Command("/usr/bin/unshare", args...)
 	cmd.Env = append(os.Environ(), "VERIF_HOME="+th.Home, "VERIF_REALHOME="+homeDir(), "VERIF_PATH="+path, "HOME="+homeDir(),
 		"FAKE_MODE="+tr.FakeMode, "FAKE_LISTING="+tr.Listing, fmt.Sprintf("FAKE_K=%d", tr.K), "FAKE_FIFO="+fifo)
+	cmd.Env = append(cmd.Env, tr.Env...)
 	var so, se bytes.Buffer
 	cmd.Stdout, cmd.Stderr = &so, &se
 	if tr.Stdin != "" {
@@ -203,3 +206,7 @@ func (th *ToolHome) Run(tr ToolRun) (*ToolResult, error) {
 	res.Stdout, res.Stderr = so.String(), se.String()
 	return res, nil
 }
+
+// HostileEnvs are environments that must not change what the command-line tools do.
+var HostileEnvs = [][]string{nil, {"LANG=tr_TR.UTF-8", "LC_ALL=tr_TR.UTF-8"}, {"LC_ALL=C", "LANG=C"}, {"TZ=Pacific/Kiritimati"}, {"TMPDIR=/nonexistent-tmp"},
+	{"GOGC=1"}, {"GOMAXPROCS=1"}, {"GODEBUG=asyncpreemptoff=1"}, {"LANG=ja_JP.eucJP", "LC_CTYPE=ja_JP.eucJP"}, {"COLUMNS=1", "LINES=1", "TERM=dumb"}, {"USER=nobody", "LOGNAME=nobody"}}
